@@ -654,7 +654,7 @@ def s_copied(ip, st, fr, name, args, c, site):
 def position_adaptor_ok(it, name, site):
     """position adaptors are interpreted on the underlying sequence; that is only right while no element has been
     dropped (filter / take_while) and, for enumerate, not yet transformed (the pair would be built from the raw element)"""
-    if any(k in it.kind for k in ('filter', 'take_while')) or (it.fns and name in ('enumerate', 'zip')):
+    if any(k in it.kind for k in ('filter', 'take_while', 'filter_map')) or (it.fns and name in ('enumerate', 'zip')):
         raise X.Unanalysable('%s after a closure adaptor' % name, site)
 
 
@@ -834,7 +834,7 @@ def s_map(ip, st, fr, name, args, c, site):
     return one(X.Iter(it.base, it.pos, it.end, it.kind + ('map',), it.extra, it.fns + [clo], it.zipped))
 
 
-@S('std::iter::Iterator::filter', 'std::iter::Iterator::take_while', 'std::iter::Iterator::inspect')
+@S('std::iter::Iterator::filter', 'std::iter::Iterator::take_while', 'std::iter::Iterator::inspect', 'std::iter::Iterator::filter_map')
 def s_filter(ip, st, fr, name, args, c, site):
     it, clo = args
     it = as_iter(ip, st, it)
@@ -920,6 +920,18 @@ def s_chars_next(ip, st, fr, name, args, c, site):
     return s_next(ip, st, fr, name, args, c, site)
 
 
+def option_cases(t, cond=None):
+    """an Option-valued term as cases [(condition, payload | None)]: mk Some / mk None, possibly under ite"""
+    cond = TRUE if cond is None else cond
+    if isinstance(t, tuple) and t and t[0] == 'mk' and t[1] == 'std::option::Option':
+        return [(cond, t[3][0] if t[2] == 'Some' else None)]
+    if isinstance(t, tuple) and t and t[0] == 'ite':
+        a = option_cases(t[2], T.mk_and(cond, t[1]))
+        b = option_cases(t[3], T.mk_and(cond, T.mk_not(t[1])))
+        return None if a is None or b is None else a + b
+    return None
+
+
 @S('std::iter::Iterator::collect')
 def s_collect(ip, st, fr, name, args, c, site):
     """the collected vector in closed form, elements numbered from 0 over the iterated domain:
@@ -930,6 +942,23 @@ def s_collect(ip, st, fr, name, args, c, site):
     rty = c['generics'][1] if len(c.get('generics', [])) > 1 else 'std::vec::Vec<?>'
     if 'rev' in it.kind or it.zipped is not None or 'take_while' in it.kind or 'inspect' in it.kind:
         return one(X.Sym(('call', 'std::iter::Iterator::collect', (ip.to_term(st, it),)), rty))
+    if 'filter_map' in it.kind:
+        # one closure decides and transforms: Some(y) keeps y, None drops the element
+        if [k for k in it.kind if k in ('map', 'filter', 'filter_map')] != ['filter_map']:
+            return one(X.Sym(('call', 'std::iter::Iterator::collect', (ip.to_term(st, it),)), rty))
+        base_it = X.Iter(it.base, it.pos, it.end, tuple(k for k in it.kind if k != 'filter_map'), it.extra)
+        bound = st.fresh_var('k', 'usize')
+        elem = iter_elem(ip, st, base_it, T.mk_add(it.pos, bound))
+        r = ip.eval_closure(st, it.fns[0], [elem], site)
+        alts = option_cases(r if isinstance(r, tuple) else ip.to_term(st, r))
+        if alts is None:
+            return one(X.Sym(('call', 'std::iter::Iterator::collect', (ip.to_term(st, it),)), rty))
+        keep = T.disj([c_ for c_, p_ in alts if p_ is not None])
+        bodies = [(c_, p_) for c_, p_ in alts if p_ is not None]
+        body = bodies[-1][1]
+        for c_, p_ in reversed(bodies[:-1]):
+            body = T.mk_ite(c_, p_, body)
+        return one(X.Sym(('filtermap', iter_domain(ip, st, it), bound, keep, body), rty))
     dom = iter_domain(ip, st, it)
     n = T.mk_sub(it.end, it.pos)
     if it.fns:
